@@ -90,6 +90,7 @@ class C18(Prop):
         burst = st.one_of(small, large)
         return st.fixed_dictionaries({
             "tls": st.booleans(),
+            "eager": st.booleans(),      # TLS layer with read-ahead: pending() may exceed a record / the buffer
             "record": st.sampled_from(RECORDS),
             "bursts": st.lists(st.tuples(st.integers(0, 40), burst).map(list), min_size=1, max_size=4),
             "with_reply": st.booleans(),   # first burst arrives in the same segment as the handshake reply
@@ -98,11 +99,11 @@ class C18(Prop):
 
     def enumerations(self, tier):
         def grid():
-            for tls in (False, True):
-                for record in (RECORDS if tls else [16384]):
+            for tls in (False, True, "eager"):
+                for record in (RECORDS if tls is True else [16384]):
                     for size in SIZES:
                         for fragment in (False, True):
-                            yield {"tls": tls, "record": record, "with_reply": False, "chunk": None,
+                            yield {"tls": bool(tls), "eager": tls == "eager", "record": record, "with_reply": False, "chunk": None,
                                    "bursts": [[4, {"kind": "few_large", "sizes": [size, 10], "fragment": fragment}],
                                               [4, {"kind": "many_small", "n": 120, "rep": 10, "ping_every": 7}]]}
             # every frame shape as the LAST frame of a read, plain and TLS
@@ -151,10 +152,11 @@ class C18(Prop):
                 straddle = True
         script.append(["eof", 1.0])
         scn = build.scenario(script, url="wss://example.test/" if tls else build.URL,
-                             connect_opts={"poll": 60.0, "ping_rate": 0}, attempt_extra={"record": case["record"]},
+                             connect_opts={"poll": 60.0, "ping_rate": 0},
+                             attempt_extra={"record": case["record"], "tls_eager": bool(tls and case.get("eager"))},
                              horizon=100000.0)
         tr = simnet.run_scenario(scn)
-        labels = {"tls" if tls else "plain"}
+        labels = {("tls_eager" if case.get("eager") else "tls") if tls else "plain"}
         if big_read:
             labels.add("burst_larger_than_one_read")
         if straddle:
